@@ -18,10 +18,12 @@ C14(r) == LET cfg == Config(r.cfg) IN
   /\ ~r.panic
   /\ Forest(r.after) = Clean(Forest(r.before), cfg)
   /\ Safe(Forest(r.reparsed), cfg)
+  /\ r.helper_eq                                  \* sanitize_html / remove_html_reply_fallback / Html::sanitize = that configuration
 C15(r) == LET cfg == Config(r.cfg)  re == Forest(r.reparsed) IN
   /\ ~r.panic
   /\ r.twice_eq                                   \* sanitising the same document object twice = once
   /\ r.sanre_eq /\ r.sanre_text_eq                \* sanitising sanitised output = parse-and-reserialise
+  /\ r.helper_eq
   /\ (r.cfg \in StandardNames => Clean(re, cfg) = re)
   /\ ((r.cfg \in StandardNames /\ Safe(Forest(r.before), cfg) /\ NoDeprecated(Forest(r.before))) => Forest(r.after) = Forest(r.before))
 Check14 == C14(Rec[i]) \/ PrintT(<<"MISMATCH", i>>)
